@@ -90,6 +90,8 @@ func runLifeProfile(l *Life, profile string, n, steps int) {
 		case "lean":
 			p = LeanProfile()
 			l.light = true
+		case "syn":
+			p = SynProfile()
 		case "mergey":
 			p = MergeyProfile()
 		case "leanmerge":
